@@ -6,6 +6,7 @@
 import LiquidModel.Lemmas.Isolate
 import LiquidModel.Lemmas.Scope
 import LiquidModel.Props.C04
+import LiquidModel.Lemmas.NonInterf
 namespace Liquid.C08
 open Liquid
 
@@ -208,5 +209,50 @@ theorem C08_lookup (ps : List (Str × Option Tmpl)) (name : Str) :
     (∀ n, ps.find? (·.1 == name) = some (n, none) → lookupPartial (Env.ofList ps) name = .err) ∧
     (∀ n t, ps.find? (·.1 == name) = some (n, some t) → lookupPartial (Env.ofList ps) name = .ok t) := by
   refine ⟨fun h => ?_, fun n h => ?_, fun n t h => ?_⟩ <;> simp [lookupPartial, Env.ofList, h]
+
+/-! ### non-interference: the partial's behaviour is a function of its arguments (and the counters) -/
+
+/-- **Inside a sandbox nothing of the caller can be observed.** Two runtimes that agree on every
+frame down to and including some sandboxed frame (with a global frame somewhere above their
+bottom `n` frames), and whose bottom `n` frames merely have the same kinds and equal counter
+frames, cannot be told apart by ANY template: same result, same output, and the runtimes stay
+related.  Proved by a two-run induction over the whole interpreter (`NI.renderN_ni`). -/
+theorem C08_sandbox_noninterference (env : Env) (n fuel : Nat) (t : Tmpl) (rt1 rt2 : Rt) (w : W)
+    (h : NI.RelN n rt1.layers rt2.layers) :
+    (renderT fuel env t rt1 w).1 = (renderT fuel env t rt2 w).1 ∧
+    (renderT fuel env t rt1 w).2.2 = (renderT fuel env t rt2 w).2.2 := by
+  have o := NI.NI2.renderList (NI.renderN_ni env n fuel) t rt1 rt2 w h
+  exact ⟨o.res, o.out⟩
+
+/-- **`render` is a function of its arguments.** Take two *arbitrary* callers — different data,
+different assigned variables, different loop frames — in which the partial's name and its
+arguments (for the `for` form also the collection) evaluate to the same values and whose counter
+frames agree.  Then `{% render … %}` (any form, any partial body, any nesting of further includes
+and renders inside it) returns the same result and writes exactly the same output in both: no
+variable of the caller, no pending interrupt, cycle position or ifchanged memory of the caller can
+influence the partial. -/
+theorem C08_render_function_of_args (env : Env) (fuel : Nat) (name : Expr) (form : RForm)
+    (args : List (Str × Expr)) (rt1 rt2 : Rt) (w : W)
+    (hc : NI.relBelow rt1.layers rt2.layers)
+    (hn : name.eval rt1.layers = name.eval rt2.layers)
+    (ha : evalVars rt1.layers (form.vars args) [] = evalVars rt2.layers (form.vars args) [])
+    (ha' : evalVars rt1.layers args [] = evalVars rt2.layers args [])
+    (hr : ∀ rng as_, form = .for_ rng as_ → rng.eval rt1.layers = rng.eval rt2.layers) :
+    (renderN (fuel + 1) env (.render_ name form args) rt1 w).1
+      = (renderN (fuel + 1) env (.render_ name form args) rt2 w).1 ∧
+    (renderN (fuel + 1) env (.render_ name form args) rt1 w).2.2
+      = (renderN (fuel + 1) env (.render_ name form args) rt2 w).2.2 := by
+  have o := NI.render_ni env fuel name form args rt1 rt2 w hc hn ha ha' hr
+  exact ⟨o.1, o.2.1⟩
+
+/-- non-vacuity: two fresh runtimes over *different* caller data satisfy the counter hypothesis, and
+a literal partial name with literal arguments satisfies the others -/
+example (d1 d2 : Obj) : NI.relBelow (Rt.build d1).layers (Rt.build d2).layers := by
+  refine ⟨⟨rfl, ?_⟩, ⟨rfl, ?_⟩, ⟨rfl, ?_⟩, trivial⟩ <;> intro c1 c2 h1 h2 <;> simp_all
+
+example (d1 d2 : Obj) (s : Str) (v : V) :
+    (Expr.lit (.sc (.str s))).eval (Rt.build d1).layers = (Expr.lit (.sc (.str s))).eval (Rt.build d2).layers ∧
+    evalVars (Rt.build d1).layers [("x".toList, .lit v)] [] = evalVars (Rt.build d2).layers [("x".toList, .lit v)] [] :=
+  ⟨rfl, rfl⟩
 
 end Liquid.C08
